@@ -1,7 +1,7 @@
 """C14 - tables: rendering does not modify the table (the only clause decided)."""
 import ast
 
-from ..loader import walk_no_nested, norm
+from ..loader import is_self_attr, walk_no_nested, norm
 from ..effects import root, is_fresh, show, path_fields
 from .. import q
 from ..cfg import guarded_by
@@ -146,6 +146,81 @@ def run(ctx):
                     r.ok("%s: write guarded by the value it writes (%s)" % (m.short, x))
     if r.n == 0:
         r.vacuous_ok = True
+    # ---------------------------------------------------------------- R7
+    r = ctx.rule("C14-R7", "SIBLING", "the width that decides whether cells must be wrapped is the width of the table: the total is the sum of the per-column maxima (columns take their "
+                 "widest cell from different rows), wherever it is computed", reference=2)
+    col_field = None
+    for m in cw.methods.values():
+        for n in walk_no_nested(m.node):
+            if isinstance(n, ast.Assign) and isinstance(n.value, ast.Call) and isinstance(n.value.func, ast.Name) and n.value.func.id == "max" and any(isinstance(t, ast.Subscript) and is_self_attr(t.value) for t in n.targets):
+                col_field = [t.value.attr for t in n.targets if isinstance(t, ast.Subscript) and is_self_attr(t.value)][0]
+    tot_writes = [(m, n) for m in cw.methods.values() for n in walk_no_nested(m.node) if isinstance(n, ast.Assign) and any(is_self_attr(t) and "total" in t.attr and "max" not in t.attr for t in n.targets)]
+    if col_field is None or not tot_writes:
+        r.note("per-column maxima / total width fields not recognised")
+        r.vacuous_ok = True
+    else:
+        for m, n in tot_writes:
+            v = n.value
+            if isinstance(v, ast.Constant) or (isinstance(v, ast.Name) and v.id in m.params):
+                continue
+            ok_ = isinstance(v, ast.Call) and isinstance(v.func, ast.Name) and v.func.id == "sum" and v.args and (is_self_attr(v.args[0], col_field) or (isinstance(v.args[0], ast.Name) and any(
+                isinstance(a, ast.Assign) and any(isinstance(t, ast.Name) and t.id == v.args[0].id for t in a.targets) and is_self_attr(a.value, col_field) for a in walk_no_nested(m.node))))
+            if ok_:
+                r.ok("%s: %s" % (m.short, norm(n)))
+            else:
+                r.fail(m, n, norm(n), "%s computes the total width as `%s`, not as the sum of the column widths (self.%s): when the longest cells of different columns sit on different rows the table "
+                       "is taken to fit, wrapping is skipped and the rows overflow the terminal" % (m.short, norm(v), col_field))
+
+    # ---------------------------------------------------------------- R8
+    r = ctx.rule("C14-R8", "SENTINEL", "None marks a column that needs no wrapping; 0 is a width (an all-empty column): a loop variable drawn from a list in which None is stored as a marker "
+                 "is compared with None, never tested for truthiness", reference=3)
+    n8 = 0
+    for name_, m in sorted(cw.methods.items()):
+        marked = {t.value.id for n in walk_no_nested(m.node) if isinstance(n, ast.Assign) and isinstance(n.value, ast.Constant) and n.value.value is None
+                  for t in n.targets if isinstance(t, ast.Subscript) and isinstance(t.value, ast.Name)}
+        if not marked:
+            continue
+        for loop in [n for n in walk_no_nested(m.node) if isinstance(n, ast.For)]:
+            it = loop.iter
+            src = it.args[0] if isinstance(it, ast.Call) and isinstance(it.func, ast.Name) and it.func.id == "enumerate" and it.args else it
+            if not (isinstance(src, ast.Name) and src.id in marked):
+                continue
+            tg = loop.target.elts[-1] if isinstance(loop.target, ast.Tuple) else loop.target
+            if not isinstance(tg, ast.Name):
+                continue
+            v = tg.id
+            for node in walk_no_nested(loop):
+                tests = []
+                if isinstance(node, (ast.If, ast.While, ast.IfExp)):
+                    tests = [node.test]
+                for t in tests:
+                    parts = t.values if isinstance(t, ast.BoolOp) else [t]
+                    for part in parts:
+                        core = part.operand if isinstance(part, ast.UnaryOp) and isinstance(part.op, ast.Not) else part
+                        if isinstance(core, ast.Name) and core.id == v:
+                            n8 += 1
+                            r.fail(m, t, "truthiness of `%s` (None-marked list %s)" % (v, src.id), "%s tests `%s` for truthiness although %s holds None as a marker and 0 as a legitimate width: "
+                                   "an all-empty column is treated like a wrapped one, receives the rounding correction and textwrap raises 'invalid width'" % (m.short, v, src.id))
+                        elif isinstance(core, ast.Compare) and isinstance(core.left, ast.Name) and core.left.id == v and isinstance(core.ops[0], (ast.Is, ast.IsNot)):
+                            n8 += 1
+                            r.ok("%s: `%s`" % (m.short, norm(core)))
+    if n8 == 0:
+        r.vacuous_ok = True
+
+    # ---------------------------------------------------------------- R9
+    r = ctx.rule("C14-R9", "OWNER", "'any border style and cell format': a table keeps its style object, not numbers derived from it - the constructor reads no attribute of the style "
+                 "(widths taken from the formats at construction go stale when the style is customised afterwards)", reference=1)
+    tinit = table.methods.get("__init__")
+    sprm = [a for a in tinit.params if a != "self"]
+    derived = [n for n in walk_no_nested(tinit.node) if isinstance(n, ast.Attribute) and ((isinstance(n.value, ast.Name) and n.value.id in sprm) or is_self_attr(n.value, "_style"))
+               and not isinstance(getattr(n, "_parent", None), ast.Call)]
+    derived = [n for n in derived if not (isinstance(getattr(n, "_parent", None), ast.Call) and getattr(n, "_parent").func is n)]
+    if derived:
+        r.fail(tinit, derived[0], "constructor reads %s" % norm(derived[0]), "Table.__init__ computes something from `%s` once: if the style's formats are changed after the table was created, "
+               "borders and rows are laid out with different widths" % norm(derived[0]))
+    else:
+        r.ok("Table.__init__ stores the style and derives nothing from it")
+
     ctx.borrow("c17", "C17-R1", "C14-R6", "any border style: customising one table's style never changes another table - the object handed out by a memoising factory "
                "(BorderStyle.none/ascii/solid) is copied, never mutated or handed on as a style's own")
     return ctx.results
